@@ -11,6 +11,28 @@ the hashes of the heads, each once, the writer's clock id, and a clock time abov
 namespace Model.Capstone
 open Model Model.Go Model.SlicesGen
 
+/-- the model's fuel suffices for the bounded traversal of the plan -/
+theorem plan_fuel_ok {U : List Entry} {l : Log} (I : Inv U l) (ho : OrderOk l.sortFn l.entries) (pcOpt : Int) :
+    (traverseG l.entries (before l.sortFn) (sortedHeads l)
+      (max (if pcOpt ≠ 0 then pcOpt else 1) (sortedHeads l).length) none).length + 1 ≤
+      traverseFuel l.entries (sortedHeads l) := by
+  have C := ctxG_of_inv I ho
+  have hin : ∀ r ∈ sortedHeads l, r ∈ l.entries := fun r hr => I.headsIn r ((mem_sortedHeads I.headsNodup).mp hr)
+  obtain ⟨_, hnd, hmem⟩ := traverse_general C hin
+  obtain ⟨t, ht⟩ := traverseG_prefix l.entries (before l.sortFn) (sortedHeads l)
+    (max (if pcOpt ≠ 0 then pcOpt else 1) (sortedHeads l).length) none
+  have hsub : ∀ x ∈ traverseG l.entries (before l.sortFn) (sortedHeads l) (-1) none, x ∈ l.entries := by
+    intro x hx
+    obtain ⟨r, hr, hd⟩ := (hmem x).mp hx
+    exact hd.mem_right
+  have h1 := List.Nodup.length_le_of_subset hnd hsub
+  have h2 : (traverseG l.entries (before l.sortFn) (sortedHeads l)
+      (max (if pcOpt ≠ 0 then pcOpt else 1) (sortedHeads l).length) none).length ≤
+      (traverseG l.entries (before l.sortFn) (sortedHeads l) (-1) none).length := by
+    rw [ht, List.length_append]; omega
+  unfold traverseFuel
+  omega
+
 theorem translated_append_plan {U : List Entry} {l : Log} (I : Inv U l) (ho : OrderOk l.sortFn l.entries)
     (hE : ∀ e ∈ l.entries, e.hash ≠ []) (pcOpt : Int) :
     ∃ (next refs : List Hash) (t : Int),
@@ -18,26 +40,7 @@ theorem translated_append_plan {U : List Entry} {l : Log} (I : Inv U l) (ho : Or
         l.clock.id l.clock.time pcOpt = some (next, refs, l.clock.id, t) ∧
       next.Nodup ∧ (∀ n, n ∈ next ↔ n ∈ hashes l.heads) ∧ (∀ x ∈ l.entries, x.clock.time < t) := by
   have hH : ∀ e ∈ l.heads, e.hash ≠ [] := fun e he => hE e (I.headsIn e he)
-  -- the bounded traversal is a prefix of the unbounded one, whose elements are distinct entries of the log
-  have hlen : (traverseG l.entries (before l.sortFn) (sortedHeads l)
-      (max (if pcOpt ≠ 0 then pcOpt else 1) (sortedHeads l).length) none).length + 1 ≤
-      traverseFuel l.entries (sortedHeads l) := by
-    have C := ctxG_of_inv I ho
-    have hin : ∀ r ∈ sortedHeads l, r ∈ l.entries := fun r hr => I.headsIn r ((mem_sortedHeads I.headsNodup).mp hr)
-    obtain ⟨_, hnd, hmem⟩ := traverse_general C hin
-    obtain ⟨t, ht⟩ := traverseG_prefix l.entries (before l.sortFn) (sortedHeads l)
-      (max (if pcOpt ≠ 0 then pcOpt else 1) (sortedHeads l).length) none
-    have hsub : ∀ x ∈ traverseG l.entries (before l.sortFn) (sortedHeads l) (-1) none, x ∈ l.entries := by
-      intro x hx
-      obtain ⟨r, hr, hd⟩ := (hmem x).mp hx
-      exact hd.mem_right
-    have h1 := List.Nodup.length_le_of_subset hnd hsub
-    have h2 : (traverseG l.entries (before l.sortFn) (sortedHeads l)
-        (max (if pcOpt ≠ 0 then pcOpt else 1) (sortedHeads l).length) none).length ≤
-        (traverseG l.entries (before l.sortFn) (sortedHeads l) (-1) none).length := by
-      rw [ht, List.length_append]; omega
-    unfold traverseFuel
-    omega
+  have hlen := plan_fuel_ok I ho pcOpt
   refine ⟨planNextRaw l, planRefsRaw l pcOpt, max l.clock.time (maxTime (sortedHeads l) 0) + 1,
     appendPlan_eq l pcOpt hE hH hlen, ?_, ?_, ?_⟩
   · unfold planNextRaw
@@ -53,5 +56,45 @@ theorem translated_append_plan {U : List Entry} {l : Log} (I : Inv U l) (ho : Or
     have := appendPlan_time_gt I pcOpt x hx
     rw [appendPlan_clock] at this
     exact this
+
+/-- the entry `CreateEntryWithIO` makes of the plan (with the CID `h` of its block): the log's id, the two lists
+    de-duplicated by `Entry.Copy` — the translated `uniqueCIDs` — and the planned clock -/
+def createdEntry (l : Log) (h : Hash) (tag : Nat) (next refs : List Hash) (t : Int) : Entry :=
+  { hash := h, logId := l.id, next := Generated.Go.uniqueCIDs next, refs := Generated.Go.uniqueCIDs refs, clock := ⟨l.clock.id, t⟩, tag := tag }
+
+/-- **the whole of `Append` on the translated code** (C04, C02, C05): on a replica that satisfies the structural
+    invariant, for every pointer count and a fresh CID `h`: the translated plan returns predecessors, references and
+    clock; for the entry made of them the translated tail of `Append` returns the new entries, index and heads; the
+    entry is the single head, every old entry is still there, and the resulting state satisfies the invariant. -/
+theorem translated_append {U : List Entry} {l : Log} (I : Inv U l) (ho : OrderOk l.sortFn l.entries)
+    (hE : ∀ e ∈ l.entries, e.hash ≠ []) (pcOpt : Int) (h : Hash) (tag : Nat) (hfresh : h ∉ hashes U) :
+    ∃ (next refs : List Hash) (t : Int) (E' : List Entry) (N' : List Hash) (H' : List Entry),
+      Generated.Go.appendPlan (traverseFuel l.entries (sortedHeads l)) l.entries (before l.sortFn) l.heads
+        l.clock.id l.clock.time pcOpt = some (next, refs, l.clock.id, t) ∧
+      Generated.Go.appendTail l.entries l.nextIdx l.heads (createdEntry l h tag next refs t) next = some (E', N', H') ∧
+      H' = [createdEntry l h tag next refs t] ∧
+      (∀ x ∈ l.entries, x ∈ E') ∧
+      Inv (U ++ [createdEntry l h tag next refs t])
+        { l with entries := E', nextIdx := N', heads := H', clock := ⟨l.clock.id, t⟩ } := by
+  have hH : ∀ e ∈ l.heads, e.hash ≠ [] := fun e he => hE e (I.headsIn e he)
+  have hplan := appendPlan_eq l pcOpt hE hH (plan_fuel_ok I ho pcOpt)
+  have he : createdEntry l h tag (planNextRaw l) (planRefsRaw l pcOpt) (max l.clock.time (maxTime (sortedHeads l) 0) + 1) =
+      (append l pcOpt h tag).1 := by
+    unfold createdEntry
+    simp only [uniqueCIDs_eq]
+    rfl
+  have hnext : (createdEntry l h tag (planNextRaw l) (planRefsRaw l pcOpt)
+      (max l.clock.time (maxTime (sortedHeads l) 0) + 1)).next = dedupHashes (planNextRaw l) [] := by
+    unfold createdEntry
+    simp only [uniqueCIDs_eq]
+  refine ⟨planNextRaw l, planRefsRaw l pcOpt, _, _, _, _, hplan, appendTail_eq l _ (planNextRaw l) hnext, rfl, ?_, ?_⟩
+  · intro x hx
+    show x ∈ omSet l.entries _
+    unfold omSet
+    split
+    · exact hx
+    · exact List.mem_append_left _ hx
+  · rw [he]
+    exact inv_append I pcOpt h tag hfresh
 
 end Model.Capstone
